@@ -181,6 +181,10 @@ var templates = []string{
 	`emit(pcall(function() return ("a"):upper() end))`,
 	`math.randomseed($K) emit("rnd", math.random(1000), math.random(1000), math.random())`,
 	`math.randomseed($K, $K) local a = math.random(100) emit("rnd2", a)`,
+	`math.randomseed($K) emit("rnd-forms", math.random(0), math.random(3, 7), math.random(-10, 10), math.random(1 << 40), math.random(math.maxinteger))`,
+	`math.randomseed($K) emit("rnd-wide", math.random(math.mininteger, math.maxinteger), math.random(-10, math.maxinteger), math.random(math.mininteger, 10), math.random(math.mininteger, -1), math.random(0, math.maxinteger))`,
+	`math.randomseed($K) local t = {} for i = 1, 20 do t[i] = math.random(math.mininteger, math.maxinteger) % 1000 end emit("rnd-wide-run", table.concat(t, ","))`,
+	`math.randomseed(1.5 * $K) emit("rnd-float-seed", math.random(100)) emit("rnd-noarg-seed", select("#", math.randomseed()))`,
 	`tostring = nil emit(type(tostring), pcall(print))`,
 	`table.insert = nil emit(type(table.insert), type(table.remove))`,
 	`emit(type(tostring), type(table.insert), type(string.upper), type(math.floor))`,
@@ -226,7 +230,7 @@ var templates = []string{
 func TestC20(t *testing.T) {
 	rec := ev.New("C20")
 	defer Finish(t, rec)
-	rec.Rule("sets of 2-4 programs, each a rapid-drawn sequence of 4-14 statements over globals from 50 templates that touch state a runtime could wrongly share (globals, library tables, the string/number/nil metatables, the random generator after an explicit seed, collectgarbage options, package.loaded/preload, locale, stdout buffering, quotas, errors, coroutines, warn), each statement compiled and run as its own chunk. Oracle: every runtime's observation list (results, errors, host events) when (a) interleaved with the others at statement granularity in one goroutine following a drawn schedule and (b) created and run concurrently on its own goroutine (GOMAXPROCS varied) equals its observation list when run alone; the binary is built with -race and any race report is a violation. Non-trivial: >= 2 runtimes each execute >= 1 statement from the shared-state suspect templates and, for (a), their statements really alternate; distinct by (programs, schedule, mode).")
+	rec.Rule("sets of 2-4 programs, each a rapid-drawn sequence of 4-14 statements over globals from 54 templates that touch state a runtime could wrongly share (globals, library tables, the string/number/nil metatables, the random generator after an explicit seed, collectgarbage options, package.loaded/preload, locale, stdout buffering, quotas, errors, coroutines, warn), each statement compiled and run as its own chunk. Oracle: every runtime's observation list (results, errors, host events) when (a) interleaved with the others at statement granularity in one goroutine following a drawn schedule and (b) created and run concurrently on its own goroutine (GOMAXPROCS varied) equals its observation list when run alone; the binary is built with -race and any race report is a violation. Non-trivial: >= 2 runtimes each execute >= 1 statement from the shared-state suspect templates and, for (a), their statements really alternate; distinct by (programs, schedule, mode).")
 	rec.Assume("math.random values are only observed after an explicit math.randomseed in the same statement")
 	rec.Assume("races are found when both conflicting accesses execute; interleavings inside Go's scheduler are sampled (GOMAXPROCS 2/4/16)")
 
